@@ -7,7 +7,7 @@ use crate::src::Src;
 
 pub const BASE_LABELS: &[&str] = &[
     "example", "com", "www", "a", "org", "net", "mail", "ns1", "b", "x", "Example", "COM", "_tcp", "host-1", "xn--caf-dma", "z9",
-    "EXAMPLE", "Www", "ab", "c",
+    "EXAMPLE", "Www", "ab", "c", "*",
 ];
 
 #[derive(Default)]
@@ -268,6 +268,66 @@ pub fn gen_record(src: &mut Src, ctx: &mut NameCtx) -> Record {
             }
             (T_DNAME, Rdata::Dname(n))
         }
+        8 if src.chance(90) => {
+            // types the library treats as opaque, filled with what their specifications put there: names
+            // (literal, or ending in a pointer to the question name at offset 12), bitmaps, fixed fields.
+            // The library must copy them verbatim; a later version that starts to understand one of them
+            // meets realistic data here.
+            let n = gen_name(src, ctx);
+            let mut lit = n.to_wire();
+            let mut ptr: Vec<u8> = if n.is_root() { vec![] } else { n.0[0].clone() };
+            if !ptr.is_empty() {
+                ptr.insert(0, ptr.len() as u8);
+            }
+            ptr.extend_from_slice(&[0xc0, 0x0c]);
+            let name = if src.chance(128) { lit.clone() } else { ptr };
+            match src.below(6) {
+                0 => {
+                    // SRV: priority, weight, port, target
+                    let mut d = src.bytes(6);
+                    d.extend(name);
+                    (T_SRV, Rdata::Opaque(d))
+                }
+                1 => {
+                    // NSEC: next name, then type-bitmap windows
+                    let mut d = std::mem::take(&mut lit);
+                    for w in 0..src.range(0, 3) {
+                        let l = src.range(1, 32);
+                        d.push(w as u8);
+                        d.push(l as u8);
+                        d.extend(src.bytes(l));
+                    }
+                    (47, Rdata::Opaque(d))
+                }
+                2 => {
+                    // RRSIG: 18 fixed bytes, signer name, signature
+                    let mut d = src.bytes(18);
+                    d.extend(name);
+                    let k = src.range(0, 64);
+                    d.extend(src.bytes(k));
+                    (46, Rdata::Opaque(d))
+                }
+                3 => {
+                    // MINFO / RP: two names
+                    let mut d = name.clone();
+                    d.extend(name);
+                    (*src.pick(&[14u16, 17]), Rdata::Opaque(d))
+                }
+                4 => (*src.pick(&[3u16, 4, 7, 8, 9, 18, 21, 36]), Rdata::Opaque({
+                    // MD MF MB MG MR AFSDB RT KX: (16-bit field +) one name
+                    let mut d = if src.chance(128) { vec![0, 10] } else { vec![] };
+                    d.extend(name);
+                    d
+                })),
+                _ => {
+                    // SVCB / HTTPS: priority, target, parameters
+                    let mut d = vec![0, 1];
+                    d.extend(name);
+                    d.extend_from_slice(&[0, 1, 0, 3, 2, b'h', b'2']);
+                    (*src.pick(&[64u16, 65]), Rdata::Opaque(d))
+                }
+            }
+        }
         8 => {
             let t = *src.pick(OPAQUE_TYPES);
             (t, Rdata::Opaque(gen_blob(src, 300)))
@@ -293,13 +353,32 @@ pub fn gen_opt(src: &mut Src) -> Record {
     let opts = (0..nopts)
         .map(|_| {
             let code = *src.pick(&[8u16, 10, 12, 3, 0, 65535]);
-            let data = match src.below(3) {
+            let data = match src.below(5) {
                 0 => vec![],
                 1 => {
                     let k = src.range(1, 8);
                     src.bytes(k)
                 }
-                _ => gen_blob(src, 60),
+                2 => gen_blob(src, 60),
+                // the library treats option data as opaque; a later version may not: the data is often what
+                // the option's own specification asks for (client subnet, cookie, padding)
+                _ => match code {
+                    8 => {
+                        let v6 = src.chance(100);
+                        let prefix = if v6 { *src.pick(&[0u8, 48, 56, 64, 128]) } else { *src.pick(&[0u8, 8, 20, 24, 32]) };
+                        let mut d = vec![0, if v6 { 2 } else { 1 }, prefix, 0];
+                        for _ in 0..(prefix as usize + 7) / 8 {
+                            d.push(src.u8());
+                        }
+                        d
+                    }
+                    10 => {
+                        let k = *src.pick(&[8usize, 16, 24, 40]);
+                        src.bytes(k)
+                    }
+                    12 => vec![0; *src.pick(&[0usize, 1, 31, 128])],
+                    _ => src.bytes(4),
+                },
             };
             (code, data)
         })
